@@ -433,10 +433,36 @@ pub fn checked_decimal_op(op: &str, a: Decimal, b: Decimal) -> Result<Decimal> {
         "-" => a.checked_sub(b),
         "*" => a.checked_mul(b),
         "/" => a.checked_div(b),
-        "%" => a.checked_rem(b),
+        "%" => exact_rem(a, b),
         _ => return Err(Error::NotSupportedOp(op.to_string())),
     };
     ans.ok_or(Error::NumberOverflow)
+}
+
+// The remainder of a / b with the sign of a, computed exactly on the 96-bit mantissas. It always
+// fits: it has the larger of the two scales and is smaller than the divisor or no larger than
+// the dividend. (The library's checked_rem returns a wrong number when aligning the scales takes
+// the dividend far beyond 96 bits, e.g. 9223372036854775807 % 0.9999999999999999999999999999.)
+fn exact_rem(a: Decimal, b: Decimal) -> Option<Decimal> {
+    let (ma, mb) = (a.mantissa().unsigned_abs(), b.mantissa().unsigned_abs());
+    let (sa, sb) = (a.scale(), b.scale());
+    let (r, scale) = if sa <= sb {
+        // dividend ma * 10^(sb - sa): reduce modulo mb one decimal place at a time
+        let mut r = ma % mb;
+        for _ in 0..(sb - sa) {
+            r = (r * 10) % mb;
+        }
+        (r, sb)
+    } else {
+        // divisor mb * 10^(sa - sb): beyond 128 bits it exceeds every dividend
+        match 10u128.checked_pow(sa - sb).and_then(|p| mb.checked_mul(p)) {
+            Some(d) => (ma % d, sa),
+            None => (ma, sa),
+        }
+    };
+    let mut ans = Decimal::try_from_i128_with_scale(r as i128, scale).ok()?;
+    ans.set_sign_negative(a.is_sign_negative() && r != 0);
+    Some(ans)
 }
 
 // 64-bit two's-complement bit operations; a shift count outside 0..=63 is an error
